@@ -33,7 +33,8 @@ MANIFEST = {
 
 REQUIRED = ["KV.C08.constants_ok", "KV.C08.hyp_of_build", "KV.C08.extendLeft_eq", "KV.C08.extendLeft_prob",
             "KV.C08.terminal_frag", "KV.C08.nonterminal_frag", "KV.C08.derivation_frag", "KV.C08.any_derivation_table",
-            "KV.C08.any_derivation", "KV.C08.any_derivation_leftToRight", "KV.C08.no_rest_fragment_table",
+            "KV.C08.any_derivation", "KV.C08.any_derivation_probing", "KV.C08.beginNonTerminal_frag",
+            "KV.C08.beginNonTerminal_rule", "KV.C08.any_derivation_leftToRight", "KV.C08.no_rest_fragment_table",
             "KV.C08.no_rest_fragment", "KV.C08.any_derivation_fails_with_dropped_marks"]
 
 KEY_G = "trie-drops-extension-marks-of-trailing-blanks"
